@@ -350,7 +350,7 @@ fn main() {
         }
         let quick = ctx.quick();
         let max_m = if quick { 4 } else { 5 };
-        let (pad_n, pad_m) = if quick { (3usize, 3usize) } else { (4usize, 4usize) };
+        let (pad_n, pad_m) = if quick { (3usize, 3usize) } else { (4usize, 5usize) };
         let all = cores(max_m);
         if all.len() as u64 != core_count(4, max_m) {
             ctx.machinery("core graph generator cardinality mismatch");
@@ -371,7 +371,7 @@ fn main() {
         let next = AtomicU64::new(0);
         let samples: Mutex<Vec<J>> = Mutex::new(vec![]);
         let all_found: Mutex<Vec<(usize, Vec<(String, String, J)>)>> = Mutex::new(vec![]);
-        let threads = 8;
+        let threads = if quick { 8 } else { 12 };
         std::thread::scope(|s| {
             for _ in 0..threads {
                 s.spawn(|| loop {
